@@ -70,6 +70,12 @@ def exhaustive(tier):
         step = 1 if fmt == "bson" or tier != "quick" else 7
         for n in range(0, top, step):
             yield {"mode": "size-sweep", "fmt": fmt, "n": n}
+    # secrets of every length around the key (32 bytes) and block (16 bytes) sizes, per method and format, alone, in a
+    # list item and in a typed dict value: the file of a successful save loads back into an equal configuration
+    for fmt in trees.FORMATS:
+        for method in ("best", "aes", "xor"):
+            for n in (1, 15, 16, 17, 31, 32, 33, 47, 48, 49, 63, 64, 65, 100, 257, 1000):
+                yield {"mode": "secret-sweep", "fmt": fmt, "method": method, "n": n}
 
 
 def strategy(tier):
@@ -191,9 +197,47 @@ def _size_sweep(case, R):
         R.nontrivial = n % 16 == 11  # a thin, measured slice counts as non-trivial (sizes around length-byte boundaries)
 
 
+def _secret_sweep(case, R):
+    cc = sandbox._state["cc"]
+    fmt, method, n = case["fmt"], case["method"], case["n"]
+    R.label("secret-sweep:" + method)
+    R.nontrivial = n > 32
+    with sandbox.CaseDir() as d:
+        item = cc.Schema()
+        item.token = cc.SecureField(method=method)
+        schema = cc.Schema()
+        schema.secret = cc.SecureField(method=method)
+        schema.sub.wide = cc.SecureField(method=method)
+        schema.rows = cc.ListField(item)
+        schema.vault = cc.DictField(cc.StringField(), cc.SecureField(method=method))
+        schema.plain = cc.ListField(cc.SecureField(method=method))
+        cfg = schema(key_filename=os.path.join(d, "key"))
+        text = "".join(chr(97 + (i * 7 + n) % 26) for i in range(n))
+        wide = ("\u00e9\u4e2d" * n)[:n]
+        cfg.secret = text
+        cfg.sub.wide = wide
+        cfg.rows = [{"token": text[::-1]}, {"token": "short"}]
+        cfg.vault = {"a": text, "b": wide}
+        cfg.plain = [wide, text]
+        want = (text, wide, [text[::-1], "short"], {"a": text, "b": wide}, [wide, text])
+        dest = os.path.join(d, "secrets." + fmt)
+        try:
+            cfg.save(dest, fmt)
+            fresh = schema(key_filename=os.path.join(d, "key"))
+            fresh.load(dest, fmt)
+            got = (fresh.secret, fresh.sub.wide, [r.token for r in fresh.rows], dict(fresh.vault), list(fresh.plain))
+            err = None
+        except Exception as exc:
+            got, err = None, exc
+        R.check(got == want, "loads-back", "secret-sweep:%s:%s" % (method, fmt),
+                lambda: "secrets of %d characters (method %s) saved as %s load back as %r (%r)" % (n, method, fmt, got, err))
+
+
 def run_case(case, R):
     if case.get("mode") == "size-sweep":
         return _size_sweep(case, R)
+    if case.get("mode") == "secret-sweep":
+        return _secret_sweep(case, R)
     cc = sandbox._state["cc"]
     spec = case["spec"]
     fmt = case["fmt"]
